@@ -135,24 +135,24 @@ Section AMap.
   Proof.
     induction m as [|[k' v'] t IH]; simpl; [discriminate|].
     destruct (eqb k k') eqn:E; simpl.
-    - intros _. pose proof (adel_length_le k t). unfold adel in H. lia.
-    - intros H. apply IH in H. unfold adel in H. lia.
+    - intros _. pose proof (adel_length_le k t). unfold adel in *. lia.
+    - intros H. apply IH in H. unfold adel in *. lia.
   Qed.
 
   (* counting the bindings that satisfy a predicate on keys *)
   Definition acount (f : K -> bool) (m : list (K * V)) : nat := length (filter (fun kv => f (fst kv)) m).
 
-  Lemma acount_cons f kv m : acount f (kv :: m) = (if f (fst kv) then 1 else 0) + acount f m.
+  Lemma acount_cons (f : K -> bool) kv m : acount f (kv :: m) = (if f (fst kv) then 1 else 0) + acount f m.
   Proof. unfold acount; simpl. destruct (f (fst kv)); auto. Qed.
 
   Lemma acount_adel_absent f k m : aget k m = None -> acount f (adel k m) = acount f m.
   Proof. intros H. now rewrite adel_absent. Qed.
 
-  Lemma acount_adel_present f k v m :
+  Lemma acount_adel_present (f : K -> bool) k v m :
     NoDup (akeys m) -> aget k m = Some v ->
     (if f k then 1 else 0) + acount f (adel k m) = acount f m.
   Proof.
-    induction m as [|[k' v'] t IH]; [discriminate|].
+    induction m as [|[k' v'] t IH]; [intros _ H; discriminate H|].
     intros ND H. simpl in ND. inversion ND; subst. simpl in H. simpl adel.
     destruct (eqb_spec k k') as [->|N]; simpl negb; cbv iota.
     - rewrite acount_cons; simpl fst. rewrite adel_absent; auto. now apply notin_aget_None.
